@@ -25,7 +25,8 @@ CONSTANTS
   HOps = {"write", "ret"}
   ReadLens = {1}
   WriteLens = {1, 3}
-  N400 = 1
+  N400C = 1
+  N400T = 2
   MaxSteps = @STEPS@
   MaxData = 1
   MaxHdrs = 2
